@@ -75,7 +75,7 @@ type builder struct {
 	feats map[string]bool
 	last  string // kind of the last segment emitted
 	nodes int
-	pin   bool // current top-level form is pinned
+	pin   bool     // current top-level form is pinned
 	force []string // kinds of the top-level forms (probe block), "" = free choice
 	dot   bool     // the next list is a dotted pair
 }
